@@ -15,11 +15,11 @@ ID = "C17"
 LEVEL = "exploration"
 DESIGN_REF = "DESIGN.md 4/C17"
 RULE = (
-    "case = (fault, prefix, suffix, EOL style, location): 14 fault statements (one per error category: syntax error, undefined "
+    "case = (fault, prefix, suffix, EOL style, location): 19 fault statements (one per error category: syntax error, undefined "
     "identifier, failed assert, unknown directive, misplaced sealing, invalid type parameter, invalid capacity, unknown data type, "
     "and the lazily committed / finalize-time ones: out-of-range constant, invalid attribute name, duplicate attribute name, bad "
-    "aggregation, missing serialization mode) and @print; prefix of 0..2 (thorough 3) and suffix of 0..1 (thorough 2) lines over "
-    "{empty, comment, field, field+comment, directive}; LF / CRLF; location in {target, dependency in a lookup root, dependency of "
+    "aggregation, missing serialization mode, expression nested beyond the interpreter stack, file that is not UTF-8) and @print; prefix of 0..2 (thorough 3) and suffix of 0..1 (thorough 2) lines over "
+    "{empty, comment, field, field+comment, directive, padding field, constant}; LF / CRLF / lone CR / mixed line endings; location in {target, dependency in a lookup root, dependency of "
     "a dependency, dependency in the same root read after its referrer, dependency in the same root read before its referrer} with "
     "the reference on line 2..4 of the referrer. Non-trivial iff the prefix is non-empty or the location is not the target; "
     "distinct by canonical hash of the tuple"
@@ -29,7 +29,7 @@ ASSUMPTIONS = [
     "'exactly once per evaluated directive': a directive in the dependency closure is delivered once per read_namespace call",
 ]
 
-CTX = ["E", "C", "F", "F#", "A"]
+CTX = ["E", "C", "F", "F#", "A", "V", "K"]
 
 
 def ctx_line(sym, i, tag):
@@ -41,7 +41,19 @@ def ctx_line(sym, i, tag):
         return "uint8 %s%d" % (tag, i)
     if sym == "F#":
         return "uint8 %s%d # doc" % (tag, i)
+    if sym == "V":
+        return "void3"
+    if sym == "K":
+        return "uint8 K%s%d = 1" % (tag.upper(), i)
     return "@assert true"
+
+
+EOLS = {"lf": ["\n"], "crlf": ["\r\n"], "cr": ["\r"], "mixed": ["\n", "\r\n", "\r"]}
+
+
+def join_lines(lines, eol):
+    e = EOLS[eol]
+    return "".join(l + e[i % len(e)] for i, l in enumerate(lines))
 
 
 # (name, statement, finalize_time?)  finalize-time faults may legitimately carry no line
@@ -59,6 +71,9 @@ FAULTS = [
     ("reserved-name", "uint8 uint8", False),
     ("duplicate-name", "uint8 dup\nuint8 dup", True),
     ("bad-aggregation", "utf8 text", True),
+    ("deep-nesting", "@assert " + "(" * 100 + "1" + ")" * 100 + " == 1", False),
+    ("deep-unary", "@assert " + "-" * 700 + "1 == 1", False),
+    ("not-utf8", "# caf\udcff", False),  # written as the byte FF: the file cannot be decoded at all
     ("print", "@print 42", False),
     ("print-bare", "@print", False),
     ("print-bare-comment", "@print  # nothing to print", False),
@@ -77,7 +92,7 @@ def faulty_text(fault, prefix, suffix, eol):
     last_fault_line = len(lines)
     for i, s in enumerate(suffix):
         lines.append(ctx_line(s, i, "s"))
-    return eol.join(lines) + eol, fault_line, last_fault_line
+    return join_lines(lines, eol), fault_line, last_fault_line
 
 
 def referrer_text(ref_expr, ref_line, eol):
@@ -87,7 +102,7 @@ def referrer_text(ref_expr, ref_line, eol):
     lines.insert(1, "@print 11")  # line 2: before the reference
     lines.append("%s dep" % ref_expr)
     lines += ["uint8 after", "@print 22", "# trailing"]  # a @print after the reference, too
-    return eol.join(lines) + eol
+    return join_lines(lines, eol)
 
 
 def referrer_prints(path, ref_line):
@@ -97,7 +112,7 @@ def referrer_prints(path, ref_line):
 
 def build(case):
     """returns (files, root, lookups, faulty_path, fault_line, last_fault_line, prints of the referring definitions)"""
-    eol = "\r\n" if case["eol"] == "crlf" else "\n"
+    eol = case["eol"]
     text, fl, lfl = faulty_text(case["fault"], case["prefix"], case["suffix"], eol)
     loc = case["location"]
     rl = case["ref_line"]
@@ -133,8 +148,8 @@ def plan(tier):
 def cases(shard, tier):
     maxp, maxs = (2, 1) if tier == "quick" else (3, 2)
     for p, s in contexts(maxp, maxs):
-        for eol in ("lf", "crlf"):
-            if eol == "crlf" and len(p) + len(s) > 2 and tier == "quick":
+        for eol in ("lf", "crlf", "cr", "mixed"):
+            if tier == "quick" and len(p) + len(s) > {"lf": 9, "crlf": 2, "cr": 1, "mixed": 1}[eol]:
                 continue
             ref_lines = [2] if shard["location"] == "target" else ([2, 4] if tier == "quick" else [2, 3, 4])
             for rl in ref_lines:
@@ -144,7 +159,7 @@ def cases(shard, tier):
 def check_case(case, R: engine.Acc):
     files, root, lookups, fpath, fl, lfl, ref_prints = build(case)
     fault = case["fault"]
-    o = api.read_namespace_tree({k: v.encode() for k, v in files.items()}, root, lookups)
+    o = api.read_namespace_tree({k: v.encode("utf8", "surrogateescape") for k, v in files.items()}, root, lookups)
     R.case(case, nontrivial=bool(case["prefix"]) or case["location"] != "target", sample=(len(case["prefix"]) == 2 and case["location"] == "lookup-dep-of-dep" and fault == "constant-out-of-range"))
     where = "target" if case["location"] == "target" else "dependency"
     if fault.startswith("print"):
@@ -173,7 +188,7 @@ def check_case(case, R: engine.Acc):
         R.violation("fault-not-reported:" + fault, "harness: the fault statement is invalid", case, observed="accepted")
         return
     e = o.error
-    if not e["ide"]:
+    if not e["ide"] and fault != "not-utf8":  # a file that is not text at all is outside C13; its error still has to name it
         R.outcome("foreign-exception")
         R.violation("foreign-exception:%s@%s" % (e["cls"], e.get("culprit")), "errors are InvalidDefinitionError (see C13)", case, observed=e)
         return
